@@ -404,3 +404,39 @@ void bad_ceil_zero__wraps(uint8_t *out, size_t out_len) {
 		out[i] = 0;
 	}
 }
+
+/* GUARD-RANGE: the block count is narrowed before the limit is tested */
+void ok_guard_range__wide(uint8_t *buf, int buf_len) {
+	const unsigned ell = (buf_len + 31) / 32;
+	if (buf_len < 0 || ell > 255) {
+		RLC_THROW(ERR_NO_VALID);
+		return;
+	}
+	buf[0] = (uint8_t)ell;
+}
+
+void bad_guard_range__narrow(uint8_t *buf, int buf_len) {
+	const uint8_t ell = (buf_len + 31) / 32;
+	if (buf_len < 0 || ell > 255) {
+		RLC_THROW(ERR_NO_VALID);
+		return;
+	}
+	buf[0] = ell;
+}
+
+/* GROW-FIRST: the length is committed before the capacity is requested */
+void ok_grow_first__lsh(bn_t c, const bn_t a, int digits) {
+	bn_grow(c, a->used + digits);
+	c->used = a->used + digits;
+	c->sign = a->sign;
+	dv_lshd(c->dp, a->dp, c->used, digits);
+	bn_trim(c);
+}
+
+void bad_grow_first__lsh(bn_t c, const bn_t a, int digits) {
+	c->used = a->used + digits;
+	bn_grow(c, c->used);
+	c->sign = a->sign;
+	dv_lshd(c->dp, a->dp, c->used, digits);
+	bn_trim(c);
+}
